@@ -120,7 +120,7 @@ def hexTok (s : String) : Bytes := (bytesOfHex s).getD []
     framed in the buffer by its reported `start`/`size`, the content is exactly those bytes, the
     reported size is the length declared in the reported dictionary (direct, or through an object
     accepted earlier in the same case), and `endstream` … `endobj` close it. -/
-def soundSeg (buf : Bytes) (earlier : List (Nat × Nat × String)) (seg : String) : Option String :=
+def soundSeg (buf : Bytes) (earlier : List (Nat × Nat × String)) (sawErr : Bool) (seg : String) : Option String :=
   match words seg with
   | "ok" :: _ :: _ :: start :: stop :: cur :: ostart :: oend :: delta :: sexp =>
     let start := start.toNat!; let stop := stop.toNat!; let cur := cur.toNat!
@@ -161,6 +161,9 @@ def soundSeg (buf : Bytes) (earlier : List (Nat × Nat × String)) (seg : String
         | some ("(int" :: n :: _) => if (n.dropEndWhile (· == ')')).toString == toString size then none else some "length"
         | some ("(ref" :: a :: g :: _) =>
           let g := (g.dropEndWhile (· == ')')).toString
+          -- a rejected duplicate definition replaces the binding without showing its value in the
+          -- output: once a call has failed, the referenced value cannot be read off the segments
+          if sawErr then none else
           match earlier.find? fun (a', g', _) => toString a' == a && toString g' == g with
           | some (_, _, v) => if v == s!"(int {size})" then none else some "length-ref"
           | none => some "length-ref-undefined"
@@ -175,19 +178,19 @@ def judgeRaw (hex impl : String) : String :=
   match bytesOfHex hex with
   | some buf =>
     let segs := impl.splitOn " | "
-    let rec go : List String → List (Nat × Nat × String) → String
-      | [], _ => "ok"
-      | sg :: t, earlier =>
-        match soundSeg buf earlier sg with
+    let rec go : List String → List (Nat × Nat × String) → Bool → String
+      | [], _, _ => "ok"
+      | sg :: t, earlier, sawErr =>
+        match soundSeg buf earlier sawErr sg with
         | some why => s!"bad unsound-{why} got=[{sg}]"
         | none =>
           match words sg with
           | "ok" :: n :: g :: _ :: _ :: _ :: _ :: _ :: _ :: sexp =>
             -- a later definition of the same id replaces the earlier one only on the error path; on
             -- the success path the id was new
-            go t ((n.toNat!, g.toNat!, " ".intercalate sexp) :: earlier)
-          | _ => go t earlier
-    go segs []
+            go t ((n.toNat!, g.toNat!, " ".intercalate sexp) :: earlier) sawErr
+          | _ => go t earlier (sawErr || sg.startsWith "err")
+    go segs [] false
   | none => "bad-case"
 
 def judge (case impl : String) : String :=
